@@ -523,6 +523,7 @@ package types
 //@   props C02 C04 C08
 //@   assigns  b.Header.LastCommitHash, b.Header.DataHash, b.LastCommit.hash, b.Data.hash
 //@   ensures  result == (len(hash) != 0 && b != nil && bytesEq(blockHashOf(b), hash))
+//@   ensures  [hashes-only-if-complete] result ==> wfBlock(b)
 
 //@ func (*Commit).ValidateBasic
 //@   props C02 C08
